@@ -277,4 +277,18 @@ def c11_f(ctx: Ctx):
     return cli.move_delegates(ctx, "C11-f")
 
 
-RULES = [c11_a, c11_b, c11_c, c11_d, c11_e, c11_f]
+@rule("C11-g")
+def c11_g(ctx: Ctx):
+    """The transfer step of an import never deletes what it transferred: with a moving import (copytree=os.replace / shutil.move) the destination is the only copy,
+    and a failed init() afterwards leaves a directory that check() reports - not a deleted one."""
+    R = "C11-g"
+    f = ctx.prog.funcs.get("signac.import_export:_copy_to_job_workspace")
+    k = "signac.import_export:_copy_to_job_workspace|no-delete"
+    if f is None:
+        return [ctx.inc(R, None, None, "_copy_to_job_workspace not found", construct=k)]
+    dels = [e for e in ctx.effects.direct(f) if e.kind == "delete"]
+    if dels:
+        return [ctx.viol(R, f, dels[0].node, f"{dels[0].prim} in _copy_to_job_workspace: when the data was *moved* into the job directory this deletes its only copy", construct=k)]
+    return [ctx.ok(R, f, f.node, "the transfer step deletes nothing", construct=k)]
+
+RULES = [c11_a, c11_b, c11_c, c11_d, c11_e, c11_f, c11_g]
